@@ -51,12 +51,12 @@ Print Assumptions C08_control_kept.
 Definition K_d15 (rf : bool) : cfg :=
   {| c_cap := 256; c_batch := 12; c_pub := {| on_batch := true; on_drain := true |}; c_dropping := true;
      c_tinit := 4; c_soft := 4; c_hard := 8; c_grace := 0; c_bits := 32; c_refresh2 := true; c_catch_all := true;
-     c_report_first := rf |}.
+     c_report_first := rf; c_bt := {| BT.BTModel.reset_index_in_process := true; BT.BTModel.cap0_guard := true |}; c_bt_catch := true |}.
 Definition d15_cmds : list cmd :=
   map (fun i => CLog 0 (mk_ev i 0 4 51 0) false) [1; 2; 3; 4; 5; 6; 7] ++
   [CTick 1; CFlush 1 (mk_flush 8 0 40); CExit 0] ++ repeat (CPoll []) 8.
 Definition d15_state (rf : bool) : st :=
-  fst (exec_all (K_d15 rf) (st0 1000 1 1 (fun _ => {| llevel := 0; lsinks := [0%nat] |}) (fun _ => {| slevel := 0; swrites := 0; sthrow := [] |})) d15_cmds).
+  fst (exec_all (K_d15 rf) (st0 1000 1 1 (fun _ => mk_lgr 0 [0%nat]) (fun _ => mk_snk 0 [])) d15_cmds).
 
 Theorem C08_lost_refuted_without_report_before_removal :
   g_denied (gh (d15_state false)) = 2 /\ g_reported (gh (d15_state false)) = 0 /\ g_lost (gh (d15_state false)) = 2 /\
